@@ -127,7 +127,7 @@ def rules_pairing(ctx, F):
                   stop_pts=stops, exempt_pts=abort)
         n_la = 0
         for pt, e in fn.points():
-            if e.get("k") == "decl" and e["name"] == "lookahead_bytes":
+            if e.get("k") == "decl" and M(fn).match("lookahead_end_byte - _", e.get("init") or {}) or (e.get("k") == "decl" and e["name"] == "lookahead_bytes"):
                 n_la += 1
                 if any(x.get("k") == "ref" and x["name"] == "lookahead_end_byte" for x in walk(e.get("init") or {})):
                     ctx.ok("P2", "ts_parser__lex:lookahead_bytes#%d" % n_la, "lookahead_bytes at %s is computed from lookahead_end_byte" % fn.loc(pt))
@@ -136,7 +136,7 @@ def rules_pairing(ctx, F):
         ctx.floor("lookahead_bytes computations", n_la, 2)
         for ctor in ("ts_subtree_new_error", "ts_subtree_new_leaf"):
             c = [n for pt, n in find(fn, ctor + "(...)")]
-            if c and any(strip(a).get("k") == "ref" and strip(a)["name"] == "lookahead_bytes" for a in c[0]["a"]):
+            if c and any(M(fn).match("@deref(lookahead_end_byte - _)", a) for a in c[0]["a"]):
                 ctx.ok("P2", "ts_parser__lex:%s-gets-lookahead_bytes" % ctor, "%s receives lookahead_bytes" % ctor)
             else:
                 ctx.bad("P2", "ts_parser__lex:%s-gets-lookahead_bytes" % ctor, "%s in ts_parser__lex is no longer given lookahead_bytes" % ctor)
